@@ -379,3 +379,163 @@ class MIUpdateNodes(MultiImplicitBase):
 
 
 CONTRACTS += [MIIntegrate, MIUpdateNodes, MIEndPoint]
+
+
+# ------------------------------------------------------------------------------------------ Verlet (second order)
+VL = ('verlet.py', 'verlet')
+
+
+class _VerletBase(_SweepBase):
+    sweeper = VL
+    kind = 'particles'
+    has_QI = False
+    has_QE = False
+    native = False  # no native twin of the ghost particle problem: counterexamples are reported without native replay
+    stubs = ('Problem.eval_f [second-order problem contract: uninterpreted acceleration of (pos, vel, t)]',)
+
+    def mk_level(self, inst, mk):
+        from vc.ghost.problem import ParticleProblem, VecP
+
+        cls = cls_of(SW + self.sweeper[0], self.sweeper[1])
+        M = inst['M']
+        L = make_level(cls, M, mk, kind='particles', fill=False, quad=inst.get('quad', 'RADAU-RIGHT'),
+                       do_coll_update=inst.get('coll_update'), problem_class=ParticleProblem)
+        sw = L.sweep
+        sw.QT = mk.matrix('L.QT', M + 1, M + 1, lower)
+        sw.Qx = mk.matrix('L.Qx', M + 1, M + 1, lambda i, j: i >= 1 and 1 <= j < i)
+        sw.QQ = mk.matrix('L.QQ', M + 1, M + 1, lambda i, j: i >= 1 and j >= 1)
+        sw.qQ = mk.vector('L.qQ', M)
+        for m in range(M + 1):
+            u = VecP()
+            u.pos, u.vel = mk.vec(f'L.x{m}'), mk.vec(f'L.v{m}')
+            u.m, u.q = 'mass', 'charge'
+            L.u[m] = u
+            L.f[m] = mk.vec(f'L.a{m}', 'f')
+        if inst.get('tau'):
+            for m in range(M):
+                t = VecP()
+                t.pos, t.vel = mk.vec(f'L.taux{m}'), mk.vec(f'L.tauv{m}')
+                L.tau[m] = t
+        L.status.unlocked = True
+        return L
+
+    def snapshot(self, st):
+        from vc.ghost.problem import VecP
+
+        st.old_u = [VecP(u) for u in st.L.u]
+        st.old_f = [cp(f) for f in st.L.f]
+        st.old_tau = [None if t is None else VecP(t) for t in st.L.tau]
+        return snapshot({'L': st.L})
+
+
+def verlet_integral(st, m):
+    """(pos, vel) of dt*Q*F in the second-order form, row m (0-based)"""
+    L, M, sw = st.L, st.M, st.L.sweep
+    dt, Q = L.dt, sw.coll.Qmat
+    pos = vsum(dt * (dt * sw.QQ[m + 1, j] * st.old_f[j]) + dt * Q[m + 1, j] * st.old_u[0].vel for j in range(1, M + 1))
+    vel = vsum(dt * Q[m + 1, j] * st.old_f[j] for j in range(1, M + 1))
+    return pos, vel
+
+
+class VerletIntegrate(_VerletBase):
+    name = 'verlet.integrate'
+    target = (SW + VL[0], 'verlet.integrate')
+
+    def instances(self, tier):
+        return [dict(M=M) for M in self.Ms(tier)]
+
+    def build(self, inst, mk):
+        L = self.mk_level(inst, mk)
+        return State(L=L, M=inst['M'], call=L.sweep.integrate)
+
+    def post(self, st, old, result, exc):
+        yield 'returns_M_values', exc is None and len(result) == st.M
+        if exc is not None:
+            return
+        for m in range(st.M):
+            pos, vel = verlet_integral(st, m)
+            yield f'row{m + 1}:position', veq(result[m].pos, pos)
+            yield f'row{m + 1}:velocity', veq(result[m].vel, vel)
+        yield from frame_clauses(old, snapshot({'L': st.L}), frame=())
+
+    def canary(self, st, old, result, exc):
+        yield 'canary:pos_without_initial_velocity', veq(result[0].pos, vsum(st.L.dt * (st.L.dt * st.L.sweep.QQ[1, j] * st.old_f[j]) for j in range(1, st.M + 1)))
+
+
+class VerletUpdateNodes(_VerletBase):
+    name = 'verlet.update_nodes'
+    target = (SW + VL[0], 'verlet.update_nodes')
+
+    def instances(self, tier):
+        return [dict(M=M, tau=t) for M in self.Ms(tier) for t in (False, True)]
+
+    def build(self, inst, mk):
+        L = self.mk_level(inst, mk)
+        return State(L=L, M=inst['M'], call=L.sweep.update_nodes)
+
+    def post(self, st, old, result, exc):
+        L, M, sw, P = st.L, st.M, st.L.sweep, st.L.prob
+        dt = L.dt
+        yield 'returns_normally', exc is None
+        if exc is not None:
+            return
+        for m in range(M):
+            ipos, ivel = verlet_integral(st, m)
+            pos = ipos + st.old_u[0].pos - vsum(dt * (dt * sw.Qx[m + 1, j] * st.old_f[j]) for j in range(1, M + 1))
+            vel = ivel + st.old_u[0].vel - vsum(dt * sw.QT[m + 1, j] * st.old_f[j] for j in range(1, M + 1))
+            if st.old_tau[m] is not None:
+                pos, vel = pos + st.old_tau[m].pos, vel + st.old_tau[m].vel
+            pos = pos + vsum(dt * (dt * sw.Qx[m + 1, j] * L.f[j]) for j in range(1, m + 1))
+            vel_partial = vel + vsum(dt * sw.QT[m + 1, j] * L.f[j] for j in range(1, m + 1))
+            yield f'node{m + 1}:position', veq(L.u[m + 1].pos, pos)
+            yield f'node{m + 1}:velocity', veq(L.u[m + 1].vel, vel_partial + dt * sw.QT[m + 1, m + 1] * L.f[m + 1])
+            er = P.find_eval(L.f[m + 1])
+            yield f'f{m + 1}:is_eval_f', er is not None
+            if er is not None:
+                yield f'f{m + 1}:force_at_new_position', veq(er.u.pos, L.u[m + 1].pos)
+                yield f'f{m + 1}:at_node_time', seq(er.t, L.time + dt * sw.coll.nodes[m])
+        yield 'status.updated', L.status.updated is True
+        yield from frame_clauses(old, snapshot({'L': L}),
+                                 frame=[f'L.u[{m}]' for m in range(1, M + 1)] + [f'L.f[{m}]' for m in range(1, M + 1)] + ['L.status.updated', 'L.prob'])
+
+    def canary(self, st, old, result, exc):
+        L, sw = st.L, st.L.sweep
+        yield 'canary:velocity_without_implicit_term', veq(L.u[1].vel, L.u[1].vel - L.dt * sw.QT[1, 1] * L.f[1])
+
+
+class VerletEndPoint(_VerletBase):
+    name = 'verlet.compute_end_point'
+    target = (SW + VL[0], 'verlet.compute_end_point')
+
+    def instances(self, tier):
+        return EndPoint.instances(self, tier)
+
+    def build(self, inst, mk):
+        L = self.mk_level(inst, mk)
+        return State(L=L, M=inst['M'], call=L.sweep.compute_end_point, inst=inst)
+
+    def post(self, st, old, result, exc):
+        L, M, sw = st.L, st.M, st.L.sweep
+        dt = L.dt
+        yield 'returns_normally', exc is None
+        if exc is not None:
+            return
+        copy_mode = st.inst['quad'] == 'RADAU-RIGHT' and not st.inst['coll_update']
+        if copy_mode:
+            yield 'uend:last_node', And(veq(L.uend.pos, st.old_u[M].pos), veq(L.uend.vel, st.old_u[M].vel))
+        else:
+            pos = st.old_u[0].pos + vsum(dt * (dt * sw.qQ[m] * st.old_f[m + 1]) + dt * sw.coll.weights[m] * st.old_u[0].vel for m in range(M))
+            vel = st.old_u[0].vel + vsum(dt * sw.coll.weights[m] * st.old_f[m + 1] for m in range(M))
+            if st.old_tau[M - 1] is not None:
+                pos, vel = pos + st.old_tau[M - 1].pos, vel + st.old_tau[M - 1].vel
+            yield 'uend:quadrature_position', veq(L.uend.pos, pos)
+            yield 'uend:quadrature_velocity', veq(L.uend.vel, vel)
+        yield 'uend:new_object', all(L.uend is not u for u in L.u)
+        yield 'uend:masses_and_charges_kept', L.uend.m == 'mass' and L.uend.q == 'charge'
+        yield from frame_clauses(old, snapshot({'L': L}), frame=['L.uend'])
+
+    def canary(self, st, old, result, exc):
+        yield 'canary:uend_is_u0', veq(st.L.uend.pos, st.old_u[0].pos)
+
+
+CONTRACTS += [VerletIntegrate, VerletUpdateNodes, VerletEndPoint]
